@@ -278,9 +278,13 @@ type SynWorld struct {
 // synBaseYear lets a world be dated in the future (a clone whose clock ran ahead).
 var synBaseYear = 2026
 
+// synStepNS is the distance between two entries of a world's timestamp pool (default one
+// second; smaller steps put several creations into one second or one millisecond).
+var synStepNS int64 = int64(time.Second)
+
 func synTS(i int) string {
 	base := time.Date(synBaseYear, 1, 2, 3, 4, 5, 0, time.UTC)
-	return base.Add(time.Duration(i) * time.Second).Format(time.RFC3339Nano)
+	return base.Add(time.Duration(int64(i) * synStepNS)).Format(time.RFC3339Nano)
 }
 
 // Render writes the world as a log, in an order ergo itself could have produced: items
